@@ -17,13 +17,15 @@
                               (cf_domain: cycle-free ...), an accepted value that inhabits its tag's
                               type inhabits the pattern type
      istype_complete          under has_type_entry (type_of_tag = Some) and the transitivity
-                              instance of is_compatible at (tag type, static type, pattern)
+                              instance of is_compatible at (tag type, static type, pattern);
+     istype_complete_partial  the same WITHOUT the transitivity hypothesis on the cycle-free
+                              fragment (trans_domain), by C09's compat_trans_partial
      param tables             rows cover every function; a filter is permissive only when the row
                               is absent; with param_compat = false everything is accepted
    NOT proved: soundness on the recursive fragment (inherits C09's gap and its known findings
    F23); `table_config_invariant` (same verdict as compiled / tree-shaken / merged) is checked on
    every run by the harness on structural images of the tables, not a theorem. *)
-From Quiver Require Import Base Types Rel Sem RelProofs Compat CompatProofs.
+From Quiver Require Import Base Types Rel Sem RelProofs Compat CompatProofs TransCheck TransThm CompatTrans.
 From Coq Require Import Arith.
 Close Scope Z_scope.
 Open Scope nat_scope.
@@ -74,6 +76,18 @@ Theorem C08_istype_complete : forall cfg fuel I c t tau S,
   check_type_compatible (compute_type_compatibility cfg fuel I) c t = true.
 Proof. exact istype_complete. Qed.
 Print Assumptions C08_istype_complete.
+
+Theorem C08_istype_complete_partial : forall cfg fuel I c t tau S,
+  cfg_retract cfg = true -> cfg_partial_name cfg = true ->
+  trans_domain (ci_reg I) tau = true -> trans_domain (ci_reg I) S = true -> trans_domain (ci_reg I) t = true ->
+  tau + S < fuel -> S + t < fuel -> tau + t < fuel ->
+  is_pattern I t = true ->
+  type_of_tag I c = Some tau ->
+  is_compatible_with cfg fuel (ci_reg I) tau S = Some true ->
+  is_compatible_with cfg fuel (ci_reg I) S t = Some true ->
+  check_type_compatible (compute_type_compatibility cfg fuel I) c t = true.
+Proof. exact istype_complete_cf. Qed.
+Print Assumptions C08_istype_complete_partial.
 
 Theorem C08_param_tables_cover : forall cfg fuel I fp bp,
   compute_param_compatibility cfg fuel I = (fp, bp) ->
